@@ -33,6 +33,20 @@ func firstTok(p string) string {
 	return p[:i]
 }
 
+// quickPattern: member of the quick tier's pattern sub-universe.
+func quickPattern(p string) bool {
+	parts := specSplit(p, false)
+	if strings.Count(p, ".") >= 2 {
+		return false
+	}
+	for i, x := range parts {
+		if x.tok == "b" && i != len(parts)-1 {
+			return false
+		}
+	}
+	return true
+}
+
 func generate(r *runner) {
 	o := r.o
 	thorough := o.Thorough() || o.Search()
@@ -46,22 +60,21 @@ func generate(r *runner) {
 		r.runSet(mkFlows([]string{p}, nil), txnsFor(urls, false), true, "single")
 	}
 
-	// 2. every pair of patterns, both load orders (quick: the pairs that can
-	//    interact, i.e. whose first tokens are equal or one of them is {p} / *)
+	// 2. every pair of patterns, both load orders.  thorough: the whole universe
+	//    (136 patterns).  quick: the sub-universe in which b occurs only as the
+	//    last part, the first token is a or {p} (or the pattern is "*") and the
+	//    host has at most two labels (51 patterns): the b-first cases are
+	//    symmetric to the a-first ones.
 	for i, p := range pats {
 		for j := i; j < len(pats); j++ {
 			q := pats[j]
-			if !thorough {
-				fp, fq := firstTok(p), firstTok(q)
-				if fp == "b" || fq == "b" { // symmetric to the a-cases
-					continue
-				}
-				if strings.Count(p, ".") == 2 || strings.Count(q, ".") == 2 { // three host labels: thorough only
-					continue
-				}
+			if !thorough && !(quickPattern(p) && quickPattern(q)) {
+				continue
 			}
 			urls := urlsFor([]string{p, q}, extra)
-			r.runSet(mkFlows([]string{p, q}, nil), txnsFor(urls, false), true, "pair")
+			// thorough: the monitor sees every pair; the model a tenth of the non-quick ones
+			rec := !thorough || (quickPattern(p) && quickPattern(q)) || (i+j)%10 == 0
+			r.runSetRec(mkFlows([]string{p, q}, nil), txnsFor(urls, false), true, "pair", rec)
 		}
 	}
 
@@ -103,16 +116,20 @@ func generate(r *runner) {
 		}
 	}
 	if o.Thorough() {
+		// every triple (with repetition) x all 6 load orders goes through the
+		// implementation + monitor; every 80th one also through the model
+		n := 0
 		for i := range small {
 			for j := i; j < len(small); j++ {
 				for l := j; l < len(small); l++ {
 					t := []string{small[i], small[j], small[l]}
-					r.runSet(mkFlows(t, nil), txnsFor(urlsFor(t, 1), false), true, "triple")
+					n++
+					r.runSetRec(mkFlows(t, nil), txnsFor(urlsFor(t, 1), false), true, "triple", n%80 == 0)
 				}
 			}
 		}
 	}
-	n := o.Scale(150, 2000, 6000)
+	n := o.Scale(150, 800, 6000)
 	for i := 0; i < n; i++ {
 		cnt := o.Rng.Range(3, 4)
 		t := []string{}
